@@ -164,6 +164,12 @@ func (r *resolver) enter(d Definition) ([]Definition, error) {
 	if hasCases, valid := d.(*Choice); valid {
 		for _, cident := range hasCases.CaseIdents() {
 			c := hasCases.cases[cident]
+			if on, err := checkFeature(c); err != nil {
+				return nil, err
+			} else if !on {
+				delete(hasCases.cases, cident)
+				continue
+			}
 			if _, err := r.addDefinitions(c, c.popDataDefinitions()); err != nil {
 				return nil, err
 			}
@@ -175,7 +181,13 @@ func (r *resolver) enter(d Definition) ([]Definition, error) {
 	// actions and notifications are be added as part of resolving uses in
 	// datadefs lists and they are resolved then.
 	if hasActions, valid := d.(HasActions); valid {
-		for _, a := range hasActions.Actions() {
+		for ident, a := range hasActions.Actions() {
+			if on, err := checkFeature(a); err != nil {
+				return nil, err
+			} else if !on {
+				delete(hasActions.Actions(), ident)
+				continue
+			}
 			if _, err := r.enter(a); err != nil {
 				return nil, err
 			}
@@ -183,7 +195,13 @@ func (r *resolver) enter(d Definition) ([]Definition, error) {
 	}
 
 	if hasNotification, valid := d.(HasNotifications); valid {
-		for _, n := range hasNotification.Notifications() {
+		for ident, n := range hasNotification.Notifications() {
+			if on, err := checkFeature(n); err != nil {
+				return nil, err
+			} else if !on {
+				delete(hasNotification.Notifications(), ident)
+				continue
+			}
 			if _, err := r.enter(n); err != nil {
 				return nil, err
 			}
